@@ -605,11 +605,39 @@ pub fn string_split(
                     #[cfg(feature = "regex")]
                     {
                         let re = interp.compile_regexp(&pattern, &flags)?;
-                        let split_result = re.split(s.as_str()).map_err(JsError::type_error)?;
-                        let split: Vec<JsValue> = split_result
-                            .into_iter()
-                            .map(|p| JsValue::String(JsString::from(p)))
-                            .collect();
+                        let text = s.as_str();
+                        let matches = re.find_iter(text).map_err(JsError::type_error)?;
+                        let split: Vec<JsValue> =
+                            {
+                                // The captures of every separator are spliced into the result;
+                                // an empty match splits between characters, never at the ends
+                                let mut parts = Vec::new();
+                                let mut piece_start = 0;
+                                for m in &matches {
+                                    if m.start >= text.len() || m.end == piece_start {
+                                        continue;
+                                    }
+                                    parts.push(JsValue::String(JsString::from(
+                                        text.get(piece_start..m.start).unwrap_or(""),
+                                    )));
+                                    for capture in m.captures.iter().skip(1) {
+                                        parts.push(match capture {
+                                            Some((from, to)) => JsValue::String(JsString::from(
+                                                text.get(*from..*to).unwrap_or(""),
+                                            )),
+                                            None => JsValue::Undefined,
+                                        });
+                                    }
+                                    piece_start = m.end;
+                                }
+                                // (the empty string splits into nothing if the separator matches it)
+                                if !(text.is_empty() && !matches.is_empty()) {
+                                    parts.push(JsValue::String(JsString::from(
+                                        text.get(piece_start..).unwrap_or(""),
+                                    )));
+                                }
+                                parts
+                            };
                         return match limit {
                             Some(l) => {
                                 let limited: Vec<JsValue> = split.into_iter().take(l).collect();
